@@ -436,7 +436,35 @@ def rule_m(R, ctx, rid="C12.m"):
         R.ob(rid, f, "direction-flags", oku and okr, "undoing := %s; redoing := %s" % (sshow(first_u) if first_u else None, sshow(first_r) if first_r else None))
 
 
+def rule_n(R, ctx, rid="C12.n"):
+    Y = ctx.yrs
+    R.rule(rid, "R-GUARD one-shot state of a future is consumed only on completion: in the Future::poll impls that acquire a "
+                "transaction (behind the async undo / redo and transact_mut_with) every `take` / `replace` of a field of `self` — "
+                "the origin handed to the transaction — is reached only where the inner lock future answered Ready; a poll that "
+                "returns Pending leaves the future as it was, or the transaction that is finally created has lost its origin and "
+                "the manager does not recognise its own undo")
+    polls = [f for f in Y.find(r"^<yrs::transact::.* as std::future::Future>::poll$") if f.mir]
+    R.floor(rid, "Future::poll impls in transact.rs", len(polls), 2)
+    n = 0
+    for fn in polls:
+        v = FnView(fn)
+        inner = [c for c in fn.calls() if re.search(r"as std::future::Future>::poll$", F.strip_generics(c.name))]
+        for cs in fn.calls_to("re:^std::option::Option::take$", "re:^std::mem::(take|replace)$"):
+            a = simp_deep(v.arg(cs, 0, 10))
+            if not (field_path(a) and root_name(a) == "self"):
+                continue
+            n += 1
+            ok = any(isinstance(l.term, tuple) and l.term[0] == "call" and re.search(r"Future>::poll$", F.strip_generics(l.term[1]))
+                     for l in v.guards(cs.bb)) and any(fn.cfg().dominates(i.bb, cs.bb) for i in inner)
+            R.ob(rid, fn, "consume:%s" % ".".join(field_path(a)[-1:]), ok,
+                 "self.%s is taken only where the inner future is Ready" % field_path(a)[-1] if ok else
+                 "self.%s is taken on every poll, also on one that returns Pending (guards: %s)" % (field_path(a)[-1], [l.desc[:80] for l in v.guards(cs.bb)]),
+                 cs.loc())
+    R.floor(rid, "one-shot fields consumed in poll", n, 1)
+
+
 def check(ctx, R):
+    R.run("C12.n", rule_n, ctx)
     R.run("C12.l", rule_l, ctx)
     R.run("C12.m", rule_m, ctx)
     R.run("C12.a", rule_a, ctx)
